@@ -36,12 +36,21 @@ func Discard() *W {
 }
 
 func (w *W) Emit(m interface{}) {
+	w.EmitRaw(Marshal(m))
+}
+
+// Marshal renders one trace line (without the newline); drivers that produce lines in parallel marshal
+// in their workers and hand the bytes to EmitRaw in order.
+func Marshal(m interface{}) []byte {
 	b, err := json.Marshal(m)
 	if err != nil {
 		panic(err)
 	}
 	// TLC's JSON reader has no null: nil slices / maps are written as empty arrays
-	b = bytes.ReplaceAll(b, []byte(":null"), []byte(":[]"))
+	return bytes.ReplaceAll(b, []byte(":null"), []byte(":[]"))
+}
+
+func (w *W) EmitRaw(b []byte) {
 	w.w.Write(b)
 	w.w.WriteByte('\n')
 	w.N++
